@@ -99,6 +99,7 @@ func Open(path string, opts *Options) (*DB, error) {
 			return nil, err
 		}
 		db.hashSeed = seed
+		verifAdjustSeed(db)
 	} else {
 		if err := db.readMeta(); err != nil {
 			return nil, errors.Wrap(err, "reading db meta")
